@@ -1,5 +1,6 @@
 import AFDriver.Wire
 import AFModel.Grid
+import AFModel.GridPhys
 
 /-! Driver of the `Grid` model (property C16). Queries (`"q"`):
 `grid` (GridSearch.fit), `sens` (Sensitivity.run), `builder` (ResultBuilder), `steps`, `shape`. -/
@@ -44,6 +45,25 @@ def orderJson (l : List (Option Nat)) : Json :=
 
 def wantRat (j : Json) : Bool := (getBool j "rat").toOption.getD false
 
+/-- `"trip": [[u, q], …]` – quantile round trips `q = ndtr(ndtri(u))` measured on the real code -/
+def tripTable (j : Json) : Except String (Option (List (UInt64 × Float))) :=
+  match j.getObjVal? "trip" with
+  | .error _ => pure none
+  | .ok t => do
+      let rows ← (← t.getArr?).toList.mapM fun e => do
+        let pair ← e.getArr?
+        if pair.size != 2 then throw "bad trip"
+        pure ((← floatOfJson pair[0]!).toBits, (← floatOfJson pair[1]!))
+      pure (some rows)
+
+def jOutcome : AF.Prior.Outcome Float → Json
+  | .ok v => jF v
+  | .limit => Json.str "limit"
+
+def jLimits : Option (Float × Float) → Json
+  | some (a, b) => Json.arr #[jF a, jF b]
+  | none => Json.null
+
 def handleGrid (j : Json) : Except String Json := do
   let cfg := cfgOf j
   let n ← getNat j "n"
@@ -74,6 +94,12 @@ def handleGrid (j : Json) : Except String Json := do
     let rr ← ratRanges ranges
     let rcells := gridModel ratNum cfg n rr
     out := out ++ [("rat_cells", jList (jList fun c => Json.arr #[jR c.1, jR c.2]) rcells)]
+  match ← tripTable j with
+  | some table =>
+      let fphys := fun (uss : List (List Float)) =>
+        jList (jList jOutcome) (physLists AF.Prior.floatSpecial (tripOf table) dims uss)
+      out := out ++ [("fphys_lower", fphys units), ("fphys_upper", fphys uppers), ("fphys_centre", fphys centres)]
+  | none => pure ()
   match j.getObjVal? "places" with
   | .ok pj =>
       let places ← (← pj.getArr?).toList.mapM fun e => do
@@ -106,6 +132,12 @@ def handleSens (j : Json) : Except String Json := do
         Json.arr #[jF c.unitCentre, jF c.unitLower, jF c.unitUpper, jF c.centre, jF c.lower, jF c.upper]) cells),
     ("order", jList (fun (x : Nat × Nat) => jNat x.2) (collectSorted (arrivals.map fun a => (a, a)))),
     ("headers", jList Json.str (headers cfg namesId namesAttr))]
+  match ← tripTable j with
+  | some table =>
+      let pcells := sensPhysCells floatNum AF.Prior.floatSpecial (tripOf table) scale dims
+      out := out ++ [("fphys_cells", jList (jList fun (c : SensPhys Float) =>
+        Json.arr #[jOutcome c.centre, jLimits c.limits]) pcells)]
+  | none => pure ()
   if wantRat j then
     let rr ← ratRanges ranges
     let rscale ← exact scale
